@@ -267,7 +267,7 @@ func c12Pool() [][]byte {
 	valid, _ := (&esdt.ESDigitalToken{Type: 1, Value: big.NewInt(2), TokenMetaData: &esdt.MetaData{Nonce: 1, Hash: []byte("h")}}).Marshal()
 	noValue := []byte{0x08, 0x01, 0x22, 0x02, 0x08, 0x01} // Type + metadata, Value field absent
 	truncated := valid[:len(valid)-2]
-	return [][]byte{{}, {0}, {1}, {2}, []byte("F"), n5, n4, nA, {1, 0, 0, 0, 0, 0, 0, 0, 1}, valid, noValue, truncated}
+	return [][]byte{{}, {0}, {1}, {2}, []byte(tF), n5, n4, nA, {1, 0, 0, 0, 0, 0, 0, 0, 1}, valid, noValue, truncated}
 }
 
 func checkTransferParse(e *Enum, tp vmcommon.ESDTTransferParser, fn string, same bool, args [][]byte) {
@@ -382,7 +382,7 @@ func C12(tier Tier) int {
 	// every wrap-around residue in the two count positions, the rest over a reduced pool
 	{
 		res := wrapResidues()
-		small := [][]byte{{}, {1}, []byte("F"), pool[9], pool[10], {0}}
+		small := [][]byte{{}, {1}, []byte(tF), pool[9], pool[10], {0}}
 		Parallel(len(res), func(wk, ri int) {
 			var rest func(cur [][]byte, depth int)
 			rest = func(cur [][]byte, depth int) {
